@@ -130,3 +130,11 @@ Definition dof_ok (weights : list Q) (size : nat) (dvol : list Q) (total : Q) : 
         (partner description, binbounds): identity classes follow the hash-consing model ---- *)
 Definition pc_classes (keys : list nat) : list nat :=
   dt_classes (map (fun k => Make (list nat) [k]) keys).
+
+(* ---- sphere pair: constructor options and default codomains (None = ValueError) ---- *)
+Definition sph_ok (is_lm : bool) (a : nat) (b : option nat) (obs : option (list nat)) : bool :=
+  match sph_model is_lm a b, obs with
+  | None, None => true
+  | Some m, Some o => nat_list_eqb m o
+  | _, _ => false
+  end.
